@@ -36,6 +36,11 @@ def gen_cases(ctx, n):
             if "initial_value" in d:
                 d["initial_value"] = "x_init"
                 ind["parameters"]["x_init"] = "0.75"
+        if rng.random() < 0.3 and ind.get("parameters"):
+            # a referenced parameter of tiny magnitude (physical constants in SI units): its listed value must still be the supplied one
+            k_ = rng.choice(sorted(ind["parameters"]))
+            if k_ in ("E_L", "I_e", "b"):
+                ind["parameters"][k_] = rng.choice(["1.380649E-23", "1.602176634E-19", "-4E-21"])
         if rng.random() < 0.15:
             name, f = rng.choice(FUNCS)
             f = systems.in_time_symbol(f, ind)      # the function is one of the CONFIGURED time variable
